@@ -154,6 +154,11 @@ class PythonExpressionMapper(StringifyMapper):
         if isinstance(expr, np.generic):
             expr = expr.item()
 
+        if (isinstance(expr, (int, float)) and not isinstance(expr, bool)
+                and expr < 0):
+            # Otherwise (-2)**2 would be printed as -2**2.
+            return "(%s)" % repr(expr)
+
         return repr(expr)
 
     def map_foreign(self, expr, *args):
